@@ -19,30 +19,32 @@ CFG = {
     "level": "proof",
     "level_text": "Lean 4 theorems over a string-level model (no floats): write_i64 prints every i64 exactly "
                   "(i64_print_exact, full); format_float_with_fraction is value-preserving and stays in the RFC 8259 "
-                  "grammar on every Display-shaped text (with_fraction_value_preserving, full); format_number_jq_compat "
-                  "is value- and sign-preserving and emits a strict RFC 8259 number for every literal WITHOUT exponent of "
-                  "the lenient grammar, any digit cap (jq_literal_value_preserving_partial); format_float_yq_with never "
+                  "grammar on every Display-shaped text (with_fraction_value_preserving, full); format_float_yq_with never "
                   "panics on LowerExp-shaped text, returns ordinary_magnitude inside the -4..6 window and a value-preserving "
-                  "RFC 8259 e±NN re-spelling outside it (yq_reformat_value_preserving, full); the cap side condition is shown "
-                  "necessary (jq_literal_cap_truncates). NOT yet proved (model + correspondence + parse-back oracle only): the "
-                  "exponent-notation branches of format_number_jq_compat (jq_literal_full_statement).",
+                  "RFC 8259 e±NN re-spelling outside it (yq_reformat_value_preserving, full); format_number_jq_compat is "
+                  "value- and sign-preserving and emits a strict RFC 8259 number for every literal of the lenient grammar, "
+                  "with or without exponent, with ≤ cap+1 significant digits and non-saturating i128 exponent arithmetic, "
+                  "for both classes (finite non-zero / zero) the parser can assign (jq_literal_value_preserving, full; one "
+                  "lemma per Rust helper in Proof/NumFmtExp.lean); the cap side condition is shown necessary "
+                  "(jq_literal_cap_truncates, finding F-C10-1). Outside the theorem (and outside the property's 'finite double' "
+                  "domain): f64-overflowing literals (helper lemma only), saturated exponents, >cap+1 digits.",
     "level_note": "The round trip of a double itself rests on trusted Rust core: f64 Display/LowerExp print a decimal that "
                   "str::parse::<f64> maps back to the same double, and parsing is a function of the decimal's exact value; "
                   "the theorems show the re-spellings preserve that exact value (Spec/Dec.sameVal) and the reader grammar. "
                   "Where the Rust code branches on a parsed f64 (finite / zero / sign) the model classifies the literal's exact "
                   "decimal against the binary64 round-to-nearest-even boundaries (Model/NumFmt.classify); this stand-in for core's "
                   "parser is checked by the correspondence on every run, not proved. Literals are quantified generatively "
-                  "(Spec/Dec.Lit); the boolean recogniser isJsonNumber is proved complete for them (isJsonNumber_text), not conversely.",
+                  "(Spec/Dec.Lit); the boolean recogniser isJsonNumber accepts exactly the strict ones (json_number_grammar_iff).",
     "technique": "Lean 4 proof over a string-level model; differential correspondence vs compiled model with an "
                  "implementation-side parse-back oracle (Rust parse::<f64> bit patterns) in every answer line",
     "variants": [{"features": []}],
     "lean_modules": ["SuccinctlyVerif.Props.C10"],
-    "lean_files": ["SuccinctlyVerif/Props/C10.lean", "SuccinctlyVerif/Proof/NumFmt.lean",
+    "lean_files": ["SuccinctlyVerif/Props/C10.lean", "SuccinctlyVerif/Proof/NumFmt.lean", "SuccinctlyVerif/Proof/NumFmtExp.lean",
                    "SuccinctlyVerif/Model/NumFmt.lean", "SuccinctlyVerif/Spec/Dec.lean", "Driver/C10.lean"],
     "generated": ["C10:"],
     "required_theorems": ["SV.Props.C10.i64_print_exact", "SV.Props.C10.with_fraction_value_preserving",
                           "SV.Props.C10.jq_literal_value_preserving_partial", "SV.Props.C10.jq_literal_cap_truncates",
-                          "SV.Props.C10.yq_reformat_value_preserving"],
+                          "SV.Props.C10.yq_reformat_value_preserving", "SV.Props.C10.jq_literal_value_preserving", "SV.Props.C10.json_number_grammar_iff"],
     "nontrivial": _c10_nontrivial,
     "rule": "request = one number through one printer route (i64 | wf/yq: a double given by its bits + the two core "
             "strings | lit/fnb: a literal | norm: normalize_extreme_literal_mantissa with a cap | tag: resolve_plain kind); "
